@@ -110,7 +110,7 @@ pub proof fn lemma_cfg_inv_ensure<'a>(st: CfgSt<'a>, subs: Map<Tid, Term<Sub>>, 
     if st.jt.contains_key((tid, f.tid)) {
         assert(cfg_pair_ok(st.nodes, (tid, f.tid), st.jt[(tid, f.tid)]));
     } else {
-        broadcast use axiom_cfg_find_block;
+        broadcast use lemma_cfg_find_block_ok;
         lemma_cfg_inv_add_block(st, subs, cfg_find_block::<'a>(subs, tid)->Some_0, f);
     }
 }
